@@ -49,6 +49,8 @@ type WorldOpts struct {
 	// FullCandidate: candidate 0 (a validator) gets synthetic base-coin delegators until 1000, 999
 	// or 998 of its 1000 delegation slots are taken: most stakes around a drawn level, a few low ones
 	FullCandidate bool
+	// ExtraAccounts adds that many keyless accounts holding 1 bip (ExtraAddr(k)) to the genesis
+	ExtraAccounts int
 }
 
 // DefaultOpts is the general-purpose profile.
@@ -569,6 +571,12 @@ func GenWorld(t *rapid.T, o WorldOpts) *World {
 	if len(zeroBal) > 0 {
 		g.Accounts = append(g.Accounts, types.Account{Address: types.Address{}, Balance: balancesOf(zeroBal)})
 	}
+	// a crowd of keyless accounts (1 bip each): fills the account cache of a node that reads them
+	for k := 0; k < o.ExtraAccounts; k++ {
+		v := Bip(1)
+		hold.add(0, v)
+		g.Accounts = append(g.Accounts, types.Account{Address: ExtraAddr(k), Balance: []types.Balance{{Coin: 0, Value: v.String()}}})
+	}
 
 	// coins
 	for _, c := range coins {
@@ -735,6 +743,11 @@ func drawOrderVol(t *rapid.T, label string) *big.Int {
 // SyntheticAddr is the k-th keyless delegator address of a FullCandidate world.
 func SyntheticAddr(k int) types.Address {
 	return types.Address{0xFA, 0xCE, byte(k >> 8), byte(k)}
+}
+
+// ExtraAddr is the k-th keyless account of a world with ExtraAccounts.
+func ExtraAddr(k int) types.Address {
+	return types.Address{0xEE, 0xAC, byte(k >> 16), byte(k >> 8), byte(k)}
 }
 
 // MultisigAddr is a deterministic multisig account address.
